@@ -268,7 +268,17 @@ def mutate_(r, case, files, written, kind=None):
         t.nodes[container]['parent'] = container
         x = t.mkdir(container, 2)
         t.link(container, 'xd', x)
-        shape = r.choice(['file', 'file', 'file', 'empty', 'subdir', 'hidden'])
+        shape = r.choice(['file', 'file', 'file', 'empty', 'subdir', 'hidden', 'manifest-file'])
+        top = t.lookup('Manifest')
+        if shape == 'manifest-file' and top is not None and t.lookup((d + '/' if d else '') + 'xm') is None:
+            # a sub-Manifest FILE that lives on the other filesystem (a file symlink), in a directory of the tree's own, with a matching entry
+            mdata = r.choice([b'', b'IGNORE nothing-here\n'])
+            t.link(di, 'xm', t.mkfile(2, mdata))
+            node = t.nodes[top]
+            line = ET.entry_line('MANIFEST', (d + '/' if d else '') + 'xm', mdata, ['SHA1'])
+            node['data'] = node['data'] + (b'' if node['data'].endswith(b'\n') or not node['data'] else b'\n') + line.encode('utf8') + b'\n'
+            node['size'] = len(node['data'])
+            return done
         if shape == 'file':
             t.link(x, 'inner', t.mkfile(2, b'on other device'))
             top = t.lookup('Manifest')
